@@ -33,6 +33,7 @@ METAS = [
     {'snt': 'a ; ( ) " # b', 'z': ''},
     {'snt': 'é あ  z'},
     {'k': ' lead', 'tok': 'a : b ~ / c'},
+    {'snt': 'tab\there  and\xa0nbsp', 'id': 'z 1'},
 ]
 
 RULE = ('trees: every decoration of every shape within the bounds, metadata variant chosen by position (all variants on the '
@@ -44,7 +45,7 @@ ASSUMPTIONS = [
 ]
 
 T.ALPHABETS['c01wide'] = dict(T.ALPHABETS['wide'])
-T.ALPHABETS['c01wide']['atoms'] = T.ALPHABETS['wide']['atoms'] + ['""', '"\\"q\\\\"', 'k#1', 'k~1,2,3']
+T.ALPHABETS['c01wide']['atoms'] = T.ALPHABETS['wide']['atoms'] + ['""', '"\\"q\\\\"', 'k#1', 'k~1,2,3', '"t\tb"']
 T.ALPHABETS['c01wide']['concepts'] = T.ALPHABETS['wide']['concepts'] + ['""~1', 'x#y']
 
 # comment lines for the fixed-point clause (multi-key lines, empty values, odd spacing)
@@ -64,7 +65,7 @@ def shards(tier, seed):
         out += T.shard_list(3, 3, 3, 'mid', empty_nodes=True, extra={'sub': 'trees', 'bounds': 'TREE(3,3,3) mid, empty nodes x 10 options'})
         out += T.shard_list(3, 4, 3, 'mid', pin=3, extra={'sub': 'trees', 'quick': 1, 'bounds': 'TREE(3,4,3) mid x 4 option pairs'})
         out += T.shard_list(4, 5, 4, 'narrow', pin=3, extra={'sub': 'trees', 'quick': 1, 'bounds': 'TREE(4,5,4) narrow x 4 option pairs'})
-    out += T.shard_list(2, 2, 2, 'mid', empty_nodes=True, pin=1, extra={'sub': 'meta', 'bounds': 'TREE(2,2,2) mid x 7 metadata variants x 10 options'})
+    out += T.shard_list(2, 2, 2, 'mid', empty_nodes=True, pin=1, extra={'sub': 'meta', 'bounds': f'TREE(2,2,2) mid x {len(METAS)} metadata variants x 10 options'})
     full = 5 if q else 6
     for a in C07.SIGMA:
         for c in C07.SIGMA:
